@@ -66,4 +66,19 @@ for fn, nm, path, sym in WCOPYFAM:
           functions=[sym], bound='extents <= 3 wide chars, arena <= 8, layout %d' % lay,
           stubs=['stubs/memset_model.c'], timeout=3000, mem_gb=10, tiers=('thorough',))
 
+# ---- C12 / C13: census of static-lifetime storage over all library translation units
+import census  # noqa: E402
+J('S.static_census', ['C12', 'C13'], 'C', 'lib/census.py', special=census.census_obligations,
+  functions=['<all 142 library translation units>'], min_obl=1,
+  note='exact symbol-table census (goto-cc) of static-lifetime, non-const storage + assignment/address-taken scan of the goto programs',
+  assumptions=['census: a static that is neither assigned nor address-taken in its translation unit cannot be written by the library (file-local linkage)'])
+
+# ---- C13 (and the dispatch half of C05): handler registration / dispatch, loop-free, full domain
+HFN = {1: 'set_str_constraint_handler_s', 2: 'thrd_set_str_constraint_handler_s', 3: 'set_mem_constraint_handler_s',
+       4: 'thrd_set_mem_constraint_handler_s', 5: 'invoke_safe_str_constraint_handler', 6: 'invoke_safe_mem_constraint_handler'}
+for op, fn in HFN.items():
+    J('C.handlers.%s' % fn, ['C13'] + (['C05'] if op >= 5 else []), 'C', 'contracts/handlers/handlers.spec.c',
+      sources=['src/str/strnlen_s.c'], defines=['OP=%d' % op], enforce=fn, functions=[fn], frame_prop=['C13'],
+      timeout=300, note='real safe_str_constraint.c / safe_mem_constraint.c #included unmodified; arbitrary pre-state of all four cells')
+
 BY_NAME = {j.name: j for j in JOBS}
